@@ -100,11 +100,40 @@ class GenDir:
         self.files[rel] = {'molssi_bse_schema': _schema('component'), 'description': 'component ' + rel,
                            'data_source': 'generated', 'elements': els}
         for k in refkeys:
-            # the same key names in every generated directory, with contents that differ from directory to directory
-            self.refs.setdefault(k, {'_entry_type': 'article', 'authors': ['Doe, J.', 'Roe, R.', 'Dir%s, D.' % self.token],
-                                     'title': 'Title of %s in directory %s' % (k, self.token),
-                                     'journal': 'J. Gen.', 'volume': str(1 + int(self.token) % 90), 'pages': '1-2', 'year': '2020',
-                                     'doi': '10.%s/%s' % (self.token, k)})
+            # the same key names in every generated directory, with contents that differ from directory to directory; the
+            # shape of an entry (entry type and which optional fields it has: address, number, editors, note, ...) is that of a
+            # randomly chosen entry of the shipped reference file, one of each rare shape first
+            self.refs.setdefault(k, self._reference(k))
+
+    _shapes = None
+
+    def _reference(self, k):
+        if GenDir._shapes is None:
+            real = load_json(os.path.join(DATA, 'REFERENCES.json'))
+            ents = [v for kk, v in sorted(real.items()) if kk != 'molssi_bse_schema']
+            rare = [e for e in ents if set(e) & {'address', 'number', 'editors', 'school', 'institution', 'note', 'type'}]
+            GenDir._shapes = (rare, ents)
+        rare, ents = GenDir._shapes
+        shape = self.rng.choice(rare) if self.rng.random() < 0.5 else self.rng.choice(ents)
+        out = {}
+        for f, v in shape.items():
+            if f == '_entry_type':
+                out[f] = v
+            elif f in ('authors', 'editors'):
+                out[f] = ['Doe, J.', 'Roe, R.', 'Dir%s, D.' % self.token][:max(1, min(3, len(v)))]
+            elif f == 'year':
+                out[f] = '2020'
+            elif f in ('volume', 'number'):
+                out[f] = str(1 + int(self.token) % 90)
+            elif f == 'pages':
+                out[f] = '1-2'
+            elif f == 'doi':
+                out[f] = '10.%s/%s' % (self.token, k)
+            elif f == 'isbn':
+                out[f] = v
+            else:
+                out[f] = '%s of %s in directory %s' % (f.capitalize(), k, self.token)
+        return out
 
     def _make_basis(self, i, family):
         rng = self.rng
